@@ -186,6 +186,17 @@ func main() {
 		fmt.Println(out)
 		inconclusive(id, "the monitor does not build against the repository's current tree")
 	}
+	if cfg.PreludeRace && !cfg.Race {
+		a := []string{"build", "-race"}
+		if mf := altModfile(work); mf != "" {
+			a = append(a, "-modfile="+mf)
+		}
+		a = append(a, "-overlay", ov.OverlayPath, "-o", vmon+".race", "./cmd/vmon")
+		if out, err := runCmd(filepath.Join(verifRoot, "harness"), env, "go", a...); err != nil {
+			fmt.Println(out)
+			inconclusive(id, "the monitor does not build with the race detector against the repository's current tree")
+		}
+	}
 	for _, app := range cfg.Bins {
 		a := []string{"build"}
 		if cfg.BinRace {
@@ -355,7 +366,7 @@ func main() {
 		"hook_sites":          len(ov.Sites),
 		"hook_files":          ov.Files,
 		"build_s":             round2(buildS),
-		"race_detector":       cfg.Race || cfg.BinRace,
+		"race_detector":       cfg.Race || cfg.BinRace || cfg.PreludeRace,
 		"notes":               notes,
 	}
 	if len(inconcl) > 0 {
@@ -569,7 +580,11 @@ func runChild(id string, cfg propCfg, vmon, work, tier string, seed uint64, batc
 		}
 		return results, []violation{{Signature: "infrastructure", Detail: fmt.Sprintf("child %d exceeded the wall-clock watchdog (%s); inconclusive, not a violation\n%s", batch, timeout, tail)}}
 	case strings.Contains(logs, "HANG-VERDICT: deadlock"):
-		return results, []violation{{Signature: "deadlock", Detail: "every repository goroutine blocked, no progress possible\n" + tail, Case: caseJSON}}
+		why := "every repository goroutine blocked, no progress possible"
+		if strings.Contains(logs, "no goroutine of the code under test is left") {
+			why = "the code under test returned without doing what was awaited (output not closed / input not consumed); no goroutine of it is left, no progress possible"
+		}
+		return results, []violation{{Signature: "deadlock", Detail: why + "\n" + tail, Case: caseJSON}}
 	case strings.Contains(logs, "HANG-VERDICT: busy"):
 		return results, []violation{{Signature: "infrastructure", Detail: "case exceeded its watchdog while goroutines were still runnable; inconclusive\n" + tail}}
 	case raceRe.MatchString(logs):
